@@ -160,30 +160,38 @@ struct Blob {
     o_t: u32,
     o_v: u32,
 }
-fn blk<T: M2Parse + Clone>(vals: Vec<T>, v: &mut Vals, c: &mut Ctr) -> (M2AnimationBlock<T>, Blob) {
+/// `am` = array presence mask of the track: bit 1 interpolation ranges, bit 2 timestamps, bit 4 values -- each array of the
+/// track is present or absent INDEPENDENTLY. Absent arrays are (0,0) with no bytes, exactly what a parse yields for them.
+fn blk<T: M2Parse + Clone>(vals: Vec<T>, v: &mut Vals, c: &mut Ctr, am: i64) -> (M2AnimationBlock<T>, Blob) {
     let n = vals.len() as u32;
+    let (has_r, has_t, has_v) = (am & 1 != 0, am & 2 != 0, am & 4 != 0);
     let (o_r, o_v) = (c.next(), c.next());
     let mut vb = Vec::new();
     for x in &vals {
         x.write(&mut vb).unwrap();
     }
     let fresh: Vec<u8> = (0..n).flat_map(|i| (i * 33 + (v.u() & 0xF)).to_le_bytes()).collect();
-    let (o_t, ts) = c.ts(fresh);
+    let (o_t, ts) = if has_t { c.ts(fresh) } else { (0, Vec::new()) };
     let ranges = v.bytes(8);
     let track = M2AnimationTrack {
         interpolation_type: M2InterpolationType::Linear,
         global_sequence: -1,
-        interpolation_ranges: M2Array::new(1, o_r),
-        timestamps: M2Array::new(n, o_t),
-        values: M2Vec { array: M2Array::new(n, o_v), data: vals },
+        interpolation_ranges: if has_r { M2Array::new(1, o_r) } else { M2Array::new(0, 0) },
+        timestamps: if has_t { M2Array::new(n, o_t) } else { M2Array::new(0, 0) },
+        values: if has_v { M2Vec { array: M2Array::new(n, o_v), data: vals } } else { M2Vec::new() },
     };
-    (M2AnimationBlock::new(track), Blob { ranges, ts, vals: vb, o_r, o_t, o_v })
+    (M2AnimationBlock::new(track), Blob {
+        ranges: if has_r { ranges } else { Vec::new() }, ts, vals: if has_v { vb } else { Vec::new() },
+        o_r: if has_r { o_r } else { 0 }, o_t, o_v: if has_v { o_v } else { 0 } })
 }
 macro_rules! ab {
-    ($kf:expr, $v:expr, $c:expr, $raws:expr, $Raw:ident, $idxf:ident, $idx:expr, $tt:expr, $mk:expr) => {{
-        if $kf {
+    ($kf:expr, $am:expr, $v:expr, $c:expr, $raws:expr, $Raw:ident, $idxf:ident, $idx:expr, $tt:expr, $mk:expr) => {{
+        if $kf && ($am & 7) != 0 {
             let vals = vec![$mk, $mk];
-            let (b, bl) = blk(vals, $v, $c);
+            let (b, bl) = blk(vals, $v, $c, $am);
+            // the object carries the raw bytes of every track that has ANY non-empty array (what M2Layout!ArraysPreserved
+            // demands of a parse; the crate's collect_*_track_data skipped ranges-only tracks: C13-RANGES-ONLY-TRACK-DROPPED)
+            if ($am & 7) != 0 {
             $raws.push($Raw {
                 $idxf: $idx,
                 track_type: $tt,
@@ -194,6 +202,7 @@ macro_rules! ab {
                 original_timestamps_offset: bl.o_t,
                 original_values_offset: bl.o_v,
             });
+            }
             b
         } else {
             M2AnimationBlock::default()
@@ -217,9 +226,10 @@ fn card(c: &Value, sec: &str) -> usize {
     c["card"][sec].as_u64().unwrap_or_else(|| tool_error(&format!("card {sec} missing"))) as usize
 }
 
-fn bone_track<T>(kf: bool, vn: u32, elem: usize, v: &mut Vals, c: &mut Ctr, raws: &mut Vec<BoneAnimationRaw>, bi: usize, tt: TrackType) -> M2Track<T> {
+fn bone_track<T>(kf: bool, am: i64, vn: u32, elem: usize, v: &mut Vals, c: &mut Ctr, raws: &mut Vec<BoneAnimationRaw>, bi: usize, tt: TrackType) -> M2Track<T> {
     let pre = vn < 264;
-    if !kf {
+    let (has_r, has_t, has_v) = (pre && am & 1 != 0, am & 2 != 0, am & 4 != 0);
+    if !kf || !(has_r || has_t || has_v) {
         return M2Track {
             base: M2TrackBase { interpolation_type: M2InterpolationType::None, global_sequence: 65535 },
             ranges: if pre { Some(M2Array::new(0, 0)) } else { None },
@@ -229,24 +239,27 @@ fn bone_track<T>(kf: bool, vn: u32, elem: usize, v: &mut Vals, c: &mut Ctr, raws
     }
     let (o_v, o_r) = (c.next(), c.next());
     let fresh: Vec<u8> = (0..2u32).flat_map(|i| (i * 40 + (v.u() & 0xF)).to_le_bytes()).collect();
-    let (o_t, ts) = c.ts(fresh);
-    let vals = v.bytes(2 * elem);
-    let ranges = if pre { Some(v.bytes(8)) } else { None };
-    raws.push(BoneAnimationRaw {
-        bone_index: bi,
-        track_type: tt,
-        timestamps: ts,
-        values: vals,
-        ranges,
-        original_timestamps_offset: o_t,
-        original_values_offset: o_v,
-        original_ranges_offset: if pre { Some(o_r) } else { None },
-    });
+    let (o_t, ts) = if has_t { c.ts(fresh) } else { (0, Vec::new()) };
+    let vals = if has_v { v.bytes(2 * elem) } else { Vec::new() };
+    let ranges = v.bytes(8);
+    // raw bytes for every bone track with any non-empty array (see the note in the ab! macro)
+    if has_r || has_t || has_v {
+        raws.push(BoneAnimationRaw {
+            bone_index: bi,
+            track_type: tt,
+            timestamps: ts,
+            values: vals,
+            ranges: if has_r { Some(ranges) } else { None },
+            original_timestamps_offset: o_t,
+            original_values_offset: if has_v { o_v } else { 0 },
+            original_ranges_offset: if has_r { Some(o_r) } else { None },
+        });
+    }
     M2Track {
         base: M2TrackBase { interpolation_type: M2InterpolationType::Linear, global_sequence: 65535 },
-        ranges: if pre { Some(M2Array::new(1, o_r)) } else { None },
-        timestamps: M2Array::new(2, o_t),
-        values: M2Array::new(2, o_v),
+        ranges: if pre { Some(if has_r { M2Array::new(1, o_r) } else { M2Array::new(0, 0) }) } else { None },
+        timestamps: if has_t { M2Array::new(2, o_t) } else { M2Array::new(0, 0) },
+        values: if has_v { M2Array::new(2, o_v) } else { M2Array::new(0, 0) },
     }
 }
 
@@ -256,6 +269,11 @@ fn build_model(c: &Value, seed: u64, label: &str) -> M2Model {
     // per-element presence pattern: element i of every animated section carries key frames iff bit (i mod 3) of kfmask
     let kfmask = c.get("kfmask").and_then(|x| x.as_i64()).unwrap_or(if gb(c, "kf") { 7 } else { 0 });
     let kfe = |i: usize| (kfmask >> (i % 3)) & 1 == 1;
+    // array presence mask (bit 1 ranges, 2 timestamps, 4 values) of every track of element i; -1 = the default shape
+    // (all arrays present; event ranges only below 264); `arot` rotates the mask over the elements
+    let amask = c.get("amask").and_then(|x| x.as_i64()).unwrap_or(-1);
+    let arot = c.get("arot").and_then(|x| x.as_bool()).unwrap_or(false);
+    let ame = |i: usize| if amask < 0 { 7 } else if arot { (amask + 3 * i as i64) % 8 } else { amask };
     let alias = c.get("alias").and_then(|x| x.as_i64()).unwrap_or(0) as u8;
     let mut v = Vals { rng: Rng::derive(seed, label), extreme: gs(c, "floats") == "extreme", n: 0 };
     let mut ctr = Ctr::new(alias);
@@ -302,10 +320,11 @@ fn build_model(c: &Value, seed: u64, label: &str) -> M2Model {
     let nb = card(c, "bones");
     for bi in 0..nb {
         let kf = kfe(bi);
+        let am = ame(bi);
         ctr.begin_elem(bi);
-        let translation = bone_track(kf, vn, 12, &mut v, &mut ctr, &mut m.raw_data.bone_animation_data, bi, TrackType::Translation);
-        let rotation = bone_track(kf, vn, 8, &mut v, &mut ctr, &mut m.raw_data.bone_animation_data, bi, TrackType::Rotation);
-        let scale = bone_track(kf, vn, 12, &mut v, &mut ctr, &mut m.raw_data.bone_animation_data, bi, TrackType::Scale);
+        let translation = bone_track(kf, am, vn, 12, &mut v, &mut ctr, &mut m.raw_data.bone_animation_data, bi, TrackType::Translation);
+        let rotation = bone_track(kf, am, vn, 8, &mut v, &mut ctr, &mut m.raw_data.bone_animation_data, bi, TrackType::Rotation);
+        let scale = bone_track(kf, am, vn, 12, &mut v, &mut ctr, &mut m.raw_data.bone_animation_data, bi, TrackType::Scale);
         m.bones.push(M2Bone {
             bone_id: (v.u() % 500) as i32,
             flags: M2BoneFlags::from_bits_retain(v.u() & 0x3FF),
@@ -383,6 +402,7 @@ fn build_model(c: &Value, seed: u64, label: &str) -> M2Model {
     }
     for i in 0..card(c, "particle_emitters") {
         let kf = kfe(i);
+        let am = ame(i);
         ctr.begin_elem(i);
         let mut e = M2ParticleEmitter::parse(&mut Cursor::new(vec![0u8; 4096]), vn).unwrap_or_else(|e| tool_error(&format!("zero emitter: {e:?}")));
         e.id = v.u();
@@ -408,20 +428,21 @@ fn build_model(c: &Value, seed: u64, label: &str) -> M2Model {
         e.unknown_1 = v.u();
         let rs = &mut r.particle_animation_data;
         use ParticleTrackType as P;
-        e.emission_speed_animation = ab!(kf, &mut v, &mut ctr, rs, ParticleAnimationRaw, emitter_index, i, P::EmissionSpeed, v.f());
-        e.emission_rate_animation = ab!(kf, &mut v, &mut ctr, rs, ParticleAnimationRaw, emitter_index, i, P::EmissionRate, v.f());
-        e.emission_area_animation = ab!(kf, &mut v, &mut ctr, rs, ParticleAnimationRaw, emitter_index, i, P::EmissionArea, v.f());
-        e.xy_scale_animation = ab!(kf, &mut v, &mut ctr, rs, ParticleAnimationRaw, emitter_index, i, P::XYScale, v.v2());
-        e.z_scale_animation = ab!(kf, &mut v, &mut ctr, rs, ParticleAnimationRaw, emitter_index, i, P::ZScale, v.f());
-        e.color_animation = ab!(kf, &mut v, &mut ctr, rs, ParticleAnimationRaw, emitter_index, i, P::Color, v.col());
-        e.transparency_animation = ab!(kf, &mut v, &mut ctr, rs, ParticleAnimationRaw, emitter_index, i, P::Transparency, v.f());
-        e.size_animation = ab!(kf, &mut v, &mut ctr, rs, ParticleAnimationRaw, emitter_index, i, P::Size, v.f());
-        e.intensity_animation = ab!(kf, &mut v, &mut ctr, rs, ParticleAnimationRaw, emitter_index, i, P::Intensity, v.f());
-        e.z_source_animation = ab!(kf, &mut v, &mut ctr, rs, ParticleAnimationRaw, emitter_index, i, P::ZSource, v.f());
+        e.emission_speed_animation = ab!(kf, am, &mut v, &mut ctr, rs, ParticleAnimationRaw, emitter_index, i, P::EmissionSpeed, v.f());
+        e.emission_rate_animation = ab!(kf, am, &mut v, &mut ctr, rs, ParticleAnimationRaw, emitter_index, i, P::EmissionRate, v.f());
+        e.emission_area_animation = ab!(kf, am, &mut v, &mut ctr, rs, ParticleAnimationRaw, emitter_index, i, P::EmissionArea, v.f());
+        e.xy_scale_animation = ab!(kf, am, &mut v, &mut ctr, rs, ParticleAnimationRaw, emitter_index, i, P::XYScale, v.v2());
+        e.z_scale_animation = ab!(kf, am, &mut v, &mut ctr, rs, ParticleAnimationRaw, emitter_index, i, P::ZScale, v.f());
+        e.color_animation = ab!(kf, am, &mut v, &mut ctr, rs, ParticleAnimationRaw, emitter_index, i, P::Color, v.col());
+        e.transparency_animation = ab!(kf, am, &mut v, &mut ctr, rs, ParticleAnimationRaw, emitter_index, i, P::Transparency, v.f());
+        e.size_animation = ab!(kf, am, &mut v, &mut ctr, rs, ParticleAnimationRaw, emitter_index, i, P::Size, v.f());
+        e.intensity_animation = ab!(kf, am, &mut v, &mut ctr, rs, ParticleAnimationRaw, emitter_index, i, P::Intensity, v.f());
+        e.z_source_animation = ab!(kf, am, &mut v, &mut ctr, rs, ParticleAnimationRaw, emitter_index, i, P::ZSource, v.f());
         m.particle_emitters.push(e);
     }
     for i in 0..card(c, "ribbon_emitters") {
         let kf = kfe(i);
+        let am = ame(i);
         ctr.begin_elem(i);
         let rs = &mut r.ribbon_animation_data;
         use RibbonTrackType as R;
@@ -430,10 +451,10 @@ fn build_model(c: &Value, seed: u64, label: &str) -> M2Model {
             position: v.v3(),
             texture_indices: M2Array::new(0, 0),
             material_indices: M2Array::new(0, 0),
-            color_animation: ab!(kf, &mut v, &mut ctr, rs, RibbonAnimationRaw, emitter_index, i, R::Color, v.col()),
-            alpha_animation: ab!(kf, &mut v, &mut ctr, rs, RibbonAnimationRaw, emitter_index, i, R::Alpha, v.f()),
-            height_above_animation: ab!(kf, &mut v, &mut ctr, rs, RibbonAnimationRaw, emitter_index, i, R::HeightAbove, v.f()),
-            height_below_animation: ab!(kf, &mut v, &mut ctr, rs, RibbonAnimationRaw, emitter_index, i, R::HeightBelow, v.f()),
+            color_animation: ab!(kf, am, &mut v, &mut ctr, rs, RibbonAnimationRaw, emitter_index, i, R::Color, v.col()),
+            alpha_animation: ab!(kf, am, &mut v, &mut ctr, rs, RibbonAnimationRaw, emitter_index, i, R::Alpha, v.f()),
+            height_above_animation: ab!(kf, am, &mut v, &mut ctr, rs, RibbonAnimationRaw, emitter_index, i, R::HeightAbove, v.f()),
+            height_below_animation: ab!(kf, am, &mut v, &mut ctr, rs, RibbonAnimationRaw, emitter_index, i, R::HeightBelow, v.f()),
             edges_per_second: v.f(),
             edge_lifetime: v.f(),
             gravity: v.f(),
@@ -447,55 +468,60 @@ fn build_model(c: &Value, seed: u64, label: &str) -> M2Model {
     }
     for i in 0..card(c, "texture_animations") {
         let kf = kfe(i);
+        let am = ame(i);
         ctr.begin_elem(i);
         let rs = &mut r.texture_animation_data;
         use TextureTrackType as T;
         m.texture_animations.push(M2TextureAnimation {
             animation_type: [M2TextureAnimationType::Scroll, M2TextureAnimationType::Rotate, M2TextureAnimationType::Scale][i % 3],
-            translation_u: ab!(kf, &mut v, &mut ctr, rs, TextureAnimationRaw, animation_index, i, T::TranslationU, v.f()),
-            translation_v: ab!(kf, &mut v, &mut ctr, rs, TextureAnimationRaw, animation_index, i, T::TranslationV, v.f()),
-            rotation: ab!(kf, &mut v, &mut ctr, rs, TextureAnimationRaw, animation_index, i, T::Rotation, v.f()),
-            scale_u: ab!(kf, &mut v, &mut ctr, rs, TextureAnimationRaw, animation_index, i, T::ScaleU, v.f()),
-            scale_v: ab!(kf, &mut v, &mut ctr, rs, TextureAnimationRaw, animation_index, i, T::ScaleV, v.f()),
+            translation_u: ab!(kf, am, &mut v, &mut ctr, rs, TextureAnimationRaw, animation_index, i, T::TranslationU, v.f()),
+            translation_v: ab!(kf, am, &mut v, &mut ctr, rs, TextureAnimationRaw, animation_index, i, T::TranslationV, v.f()),
+            rotation: ab!(kf, am, &mut v, &mut ctr, rs, TextureAnimationRaw, animation_index, i, T::Rotation, v.f()),
+            scale_u: ab!(kf, am, &mut v, &mut ctr, rs, TextureAnimationRaw, animation_index, i, T::ScaleU, v.f()),
+            scale_v: ab!(kf, am, &mut v, &mut ctr, rs, TextureAnimationRaw, animation_index, i, T::ScaleV, v.f()),
         });
     }
     for i in 0..card(c, "color_animations") {
         let kf = kfe(i);
+        let am = ame(i);
         ctr.begin_elem(i);
         let rs = &mut r.color_animation_data;
         m.color_animations.push(M2ColorAnimation {
-            color: ab!(kf, &mut v, &mut ctr, rs, ColorAnimationRaw, animation_index, i, ColorTrackType::Color, v.col()),
-            alpha: ab!(kf, &mut v, &mut ctr, rs, ColorAnimationRaw, animation_index, i, ColorTrackType::Alpha, v.u16()),
+            color: ab!(kf, am, &mut v, &mut ctr, rs, ColorAnimationRaw, animation_index, i, ColorTrackType::Color, v.col()),
+            alpha: ab!(kf, am, &mut v, &mut ctr, rs, ColorAnimationRaw, animation_index, i, ColorTrackType::Alpha, v.u16()),
         });
     }
     for i in 0..card(c, "transparency_animations") {
         let kf = kfe(i);
+        let am = ame(i);
         ctr.begin_elem(i);
         let rs = &mut r.transparency_animation_data;
         m.transparency_animations.push(M2TransparencyAnimation {
-            alpha: ab!(kf, &mut v, &mut ctr, rs, TransparencyAnimationRaw, animation_index, i, TransparencyTrackType::Alpha, v.f()),
+            alpha: ab!(kf, am, &mut v, &mut ctr, rs, TransparencyAnimationRaw, animation_index, i, TransparencyTrackType::Alpha, v.f()),
         });
     }
     for i in 0..card(c, "events") {
         let kf = kfe(i);
+        let am = ame(i);
         ctr.begin_elem(i);
         let mut e = M2Event::new([b'$', b'E', b'0' + i as u8, b'A' + (v.u() % 26) as u8], (v.u() % 40) as i16);
         e.data = v.u();
         e.unknown = v.u16();
         e.position = [v.f(), v.f(), v.f()];
         e.interp_type = 1;
-        if kf {
+        let (ev_r, ev_t) = if amask < 0 { (vn < 264, true) } else { (am & 1 != 0, am & 2 != 0) };
+        if kf && (ev_r || ev_t) {
             let o_r = ctr.next();
-            let nr = if vn < 264 { 1 } else { 0 };
             let fresh: Vec<u8> = (0..2u32).flat_map(|k| (k * 50 + (v.u() & 0xF)).to_le_bytes()).collect();
-            let (o_t, ts) = ctr.ts(fresh);
-            let ranges = v.bytes(8 * nr);
-            e.ranges = if nr > 0 { M2Array::new(nr as u32, o_r) } else { M2Array::new(0, 0) };
-            e.times = M2Array::new(2, o_t);
+            let (o_t, ts) = if ev_t { ctr.ts(fresh) } else { (0, Vec::new()) };
+            let ranges = if ev_r { v.bytes(8) } else { Vec::new() };
+            e.ranges = if ev_r { M2Array::new(1, o_r) } else { M2Array::new(0, 0) };
+            e.times = if ev_t { M2Array::new(2, o_t) } else { M2Array::new(0, 0) };
+            // the parser keeps an event's raw bytes iff it has ranges or timestamps (collect_event_data)
             r.event_data.push(EventRaw {
                 event_index: i,
                 ranges,
-                original_ranges_offset: if nr > 0 { o_r } else { 0 },
+                original_ranges_offset: if ev_r { o_r } else { 0 },
                 timestamps: ts,
                 original_timestamps_offset: o_t,
             });
@@ -504,17 +530,19 @@ fn build_model(c: &Value, seed: u64, label: &str) -> M2Model {
     }
     for i in 0..card(c, "attachments") {
         let kf = kfe(i);
+        let am = ame(i);
         ctr.begin_elem(i);
         let rs = &mut r.attachment_animation_data;
         m.attachments.push(M2Attachment {
             id: v.u() % 60,
             bone_index: (v.u() % 90) as i32,
             position: v.v3(),
-            scale_animation: ab!(kf, &mut v, &mut ctr, rs, AttachmentAnimationRaw, attachment_index, i, AttachmentTrackType::Scale, v.f()),
+            scale_animation: ab!(kf, am, &mut v, &mut ctr, rs, AttachmentAnimationRaw, attachment_index, i, AttachmentTrackType::Scale, v.f()),
         });
     }
     for i in 0..card(c, "cameras") {
         let kf = kfe(i);
+        let am = ame(i);
         ctr.begin_elem(i);
         let rs = &mut r.camera_animation_data;
         use CameraTrackType as C;
@@ -523,17 +551,18 @@ fn build_model(c: &Value, seed: u64, label: &str) -> M2Model {
             fov: v.f(),
             far_clip: v.f(),
             near_clip: v.f(),
-            position_animation: ab!(kf, &mut v, &mut ctr, rs, CameraAnimationRaw, camera_index, i, C::Position, v.v3()),
+            position_animation: ab!(kf, am, &mut v, &mut ctr, rs, CameraAnimationRaw, camera_index, i, C::Position, v.v3()),
             position_base: v.v3(),
-            target_position_animation: ab!(kf, &mut v, &mut ctr, rs, CameraAnimationRaw, camera_index, i, C::TargetPosition, v.v3()),
+            target_position_animation: ab!(kf, am, &mut v, &mut ctr, rs, CameraAnimationRaw, camera_index, i, C::TargetPosition, v.v3()),
             target_position_base: v.v3(),
-            roll_animation: ab!(kf, &mut v, &mut ctr, rs, CameraAnimationRaw, camera_index, i, C::Roll, v.f()),
+            roll_animation: ab!(kf, am, &mut v, &mut ctr, rs, CameraAnimationRaw, camera_index, i, C::Roll, v.f()),
             id: if vn >= 264 { v.u() } else { 0 },
             flags: if vn >= 264 { M2CameraFlags::from_bits_retain(v.u16() & 3) } else { M2CameraFlags::empty() },
         });
     }
     for i in 0..card(c, "lights") {
         let kf = kfe(i);
+        let am = ame(i);
         ctr.begin_elem(i);
         let rs = &mut r.light_animation_data;
         use LightTrackType as L;
@@ -541,11 +570,11 @@ fn build_model(c: &Value, seed: u64, label: &str) -> M2Model {
             light_type: [M2LightType::Directional, M2LightType::Point, M2LightType::Spot][i % 3],
             bone_index: v.u16(),
             position: v.v3(),
-            ambient_color_animation: ab!(kf, &mut v, &mut ctr, rs, LightAnimationRaw, light_index, i, L::AmbientColor, v.col()),
-            diffuse_color_animation: ab!(kf, &mut v, &mut ctr, rs, LightAnimationRaw, light_index, i, L::DiffuseColor, v.col()),
-            attenuation_start_animation: ab!(kf, &mut v, &mut ctr, rs, LightAnimationRaw, light_index, i, L::AttenuationStart, v.f()),
-            attenuation_end_animation: ab!(kf, &mut v, &mut ctr, rs, LightAnimationRaw, light_index, i, L::AttenuationEnd, v.f()),
-            visibility_animation: ab!(kf, &mut v, &mut ctr, rs, LightAnimationRaw, light_index, i, L::Visibility, v.f()),
+            ambient_color_animation: ab!(kf, am, &mut v, &mut ctr, rs, LightAnimationRaw, light_index, i, L::AmbientColor, v.col()),
+            diffuse_color_animation: ab!(kf, am, &mut v, &mut ctr, rs, LightAnimationRaw, light_index, i, L::DiffuseColor, v.col()),
+            attenuation_start_animation: ab!(kf, am, &mut v, &mut ctr, rs, LightAnimationRaw, light_index, i, L::AttenuationStart, v.f()),
+            attenuation_end_animation: ab!(kf, am, &mut v, &mut ctr, rs, LightAnimationRaw, light_index, i, L::AttenuationEnd, v.f()),
+            visibility_animation: ab!(kf, am, &mut v, &mut ctr, rs, LightAnimationRaw, light_index, i, L::Visibility, v.f()),
             id: v.u(),
             flags: M2LightFlags::from_bits_retain(v.u16() & 3),
         });
@@ -564,7 +593,8 @@ fn x_bones(b: &[M2Bone]) -> String {
     ptok(&b.iter().map(|b| (b.bone_id, b.flags.bits(), b.parent_bone, b.submesh_id, x_track(&b.translation), x_track(&b.rotation), x_track(&b.scale), format!("{:?}", b.pivot))).collect::<Vec<_>>())
 }
 fn x_bonekf(r: &[BoneAnimationRaw]) -> String {
-    ptok(&r.iter().map(|r| (r.bone_index, format!("{:?}", r.track_type), r.timestamps.clone(), r.values.clone())).collect::<Vec<_>>())
+    // cross-version: timestamps and values only; a track that has nothing but ranges does not exist from WotLK on
+    ptok(&r.iter().filter(|r| !(r.timestamps.is_empty() && r.values.is_empty())).map(|r| (r.bone_index, format!("{:?}", r.track_type), r.timestamps.clone(), r.values.clone())).collect::<Vec<_>>())
 }
 fn x_cameras(cs: &[M2Camera]) -> String {
     ptok(&cs.iter().map(|c| (c.camera_type, c.fov.to_bits(), c.far_clip.to_bits(), c.near_clip.to_bits(), format!("{:?}{:?}{:?}{:?}{:?}", c.position_animation, c.position_base, c.target_position_animation, c.target_position_base, c.roll_animation))).collect::<Vec<_>>())
@@ -1029,7 +1059,7 @@ fn main() {
             "ver":c.get("ver").cloned().unwrap_or(json!(if fmt == "anim_modern" { "Legion" } else { "MoP" })),"vn":c.get("vn").cloned().unwrap_or(json!(0)),
             "kf":c.get("kf").cloned().unwrap_or(json!(false)),"floats":c.get("floats").cloned().unwrap_or(json!("normal")),
             "namelen":c.get("namelen").cloned().unwrap_or(json!(-1)),"texlen":c.get("texlen").cloned().unwrap_or(json!(-1)),
-            "alias":c.get("alias").cloned().unwrap_or(json!(0)),"kfmask":c.get("kfmask").cloned().unwrap_or(json!(-1)),"mask":c.get("mask").cloned().unwrap_or(json!(-1)),
+            "alias":c.get("alias").cloned().unwrap_or(json!(0)),"amask":c.get("amask").cloned().unwrap_or(json!(-1)),"arot":c.get("arot").cloned().unwrap_or(json!(false)),"kfmask":c.get("kfmask").cloned().unwrap_or(json!(-1)),"mask":c.get("mask").cloned().unwrap_or(json!(-1)),
             "pop":pop,"shape":c.get("card").cloned().unwrap_or(json!({"nsec":c.get("nsec"),"nbones":c.get("nbones"),"data":c.get("data"),"mask":c.get("mask")}))})];
         match kind {
             "m2" => run_m2(&mut evs, c, &case, seed),
